@@ -1021,6 +1021,66 @@ def work_cond(chunk):
 
 
 # ---------------------------------------------------------------------------------------------
+# part (e): recursion through .f in functions that declare locals
+
+# (function text, arity, expected value as a Python function of the arguments)  --  every frame of the recursion has its
+# own locals: a local assigned before the recursive call still has its value after it; the globals a, b are untouched.
+REC_LOCALS = [
+    ('{[a];a::x;:[x>0;.f(x-1);0];a}', 1, lambda n: n),
+    ('{[a];a::x*10;:[x>0;a+.f(x-1);a]}', 1, lambda n: sum(10 * i for i in range(n + 1))),
+    ('{[a b];a::x;b::y;:[x>0;.f(x-1;y+1);0];a,b}', 2, lambda n, m: [n, m]),
+    ('{[t];t::x;:[x>0;(.f(x-1)),t;,t]}', 1, lambda n: list(range(n + 1))),
+    ('{[a];:[x>0;a::.f(x-1);a::0];a+x}', 1, lambda n: sum(range(n + 1))),
+]
+
+
+def rec_items(cfg):
+    out = []
+    for i, (fn, n, _) in enumerate(REC_LOCALS):
+        for depth in range(cfg.pick(4, 7)):
+            for via in ('direct', 'from-function'):
+                out.append((i, depth, via))
+    return out
+
+
+def work_rec(chunk):
+    st = Stats()
+    for i, depth, via in chunk:
+        fn, n, model = REC_LOCALS[i]
+        args = (depth,) if n == 1 else (depth, 5)
+        want = model(*args)
+        k = KlongInterpreter()
+        progs = [LOCAL_GLOBALS, 'r::' + fn, 'w::{[a];a::7;r(%s)}' % ';'.join('xyz'[:n])]
+        call = ('r(%s)' if via == 'direct' else 'w(%s)') % ';'.join(str(a) for a in args)
+
+        def seq():
+            for p in progs:
+                k(p)
+            return k(call)
+        base = None
+        obs = outcome(seq)
+        st.d['evals'] += len(progs) + 1
+        st.d['calls'] += 1
+        st.d['states'] += 1
+        st.form('recursion-with-locals')
+        glob = outcome(lambda: np.array([k('a'), k('b')]))
+        observed = show_outcome(obs) + ' then a,b=' + show_outcome(glob)
+        exp_v = cn(k2list(want))
+        expected = 'ok:' + show(exp_v) + ' then a,b=ok:[100 200]'
+        st.d['outcomes'].add(hash(observed))
+        key = ';'.join(progs + [call])
+        ok = obs == ('ok', exp_v) and glob == ('ok', cn(np.array([100, 200])))
+        if not ok:
+            st.violation(key, observed, expected, dict(part='e', programs=progs + [call]), snippet_for(progs + [call]),
+                         'recursive-call-through-.f-shares-the-locals-of-its-caller')
+    return st.d
+
+
+def k2list(v):
+    return np.array(v) if isinstance(v, list) else v
+
+
+# ---------------------------------------------------------------------------------------------
 
 def selftest():
     t = ('D', '-', ('D', '+', ('L', 'x'), ('L', '1')), ('M', '#', ('L', 'y')))
@@ -1076,11 +1136,12 @@ def run(cfg):
             pooled[tag]['samples'] = sorted(pooled[tag].get('samples', []))[:3]     # order-independent choice
     t_pool = round(time.time() - t0, 1)
     t0 = time.time()
-    items_b, items_d = proj_items(cfg), cond_items(cfg)
-    part_b, part_d = work_proj(items_b), work_cond(items_d)
+    items_b, items_d, items_e = proj_items(cfg), cond_items(cfg), rec_items(cfg)
+    part_b, part_d, part_e = work_proj(items_b), work_cond(items_d), work_rec(items_e)
     t_inline = round(time.time() - t0, 1)
     for name, items, part, wall in (('a', items_a, pooled['a'], t_pool), ('b', items_b, part_b, t_inline),
-                                    ('c', items_c, pooled['c'], t_pool), ('d', items_d, part_d, t_inline)):
+                                    ('c', items_c, pooled['c'], t_pool), ('d', items_d, part_d, t_inline),
+                                    ('e', items_e, part_e, t_inline)):
         parts[name] = dict(items=len(items), wall_s_shared=wall, evals=part.get('evals', 0),
                            calls=part.get('calls', 0),
                            states=part.get('states', 0), violations=len(part.get('violations', [])),
@@ -1123,6 +1184,9 @@ def run(cfg):
                  % (cfg.pick('bodies <= 1 node at nesting depth 1, 2, 3; bodies with 2 nodes at depth 3 with 1 tuple',
                              'every body at nesting depth 1, 2, 3'),
                     len(cfg.pick(FAULT_TUPLES_Q, FAULT_TUPLES_T)), len(BATTERY)),
+            'e': '%d functions that declare locals and recurse through .f x depths 0..%d, called directly and from another '
+                 'function that declares a local of the same name; expected values from a hand-written model'
+                 % (len(REC_LOCALS), cfg.pick(3, 6)),
             'd': '%d condition expressions (%d literal, %d computed) x 3 placements, one- and two-condition forms'
                  % (len(TRUTH_LITERALS) + len(TRUTH_COMPUTED), len(TRUTH_LITERALS), len(TRUTH_COMPUTED)),
         },
